@@ -379,6 +379,42 @@ def _own_names(j, root=True):
     return s
 
 
+def _node_path(n):
+    p = []
+    while n.parent is not None:
+        p.append(int(n.parent_index))
+        n = n.parent
+    return p[::-1]
+
+
+def _flatten_logged(loop, depth):
+    """flatten_and_balance with the structural rewrites it performs logged as (path from the root, rewrite)"""
+    from qupulse.program.loop import Loop
+    steps = []
+    state = {'ok': True}
+    saved = {n: Loop.__dict__[n] for n in ('encapsulate', 'unroll', '_merge_single_child')}
+
+    def wrap(name, mk):
+        orig = saved[name]
+
+        def f(self, *a, **kw):
+            try:
+                steps.append(mk(self))
+            except Exception:       # the tree layout is not what the instrumentation knows
+                state['ok'] = False
+            return orig(self, *a, **kw)
+        return f
+    Loop.encapsulate = wrap('encapsulate', lambda s: [_node_path(s), ['encapsulate']])
+    Loop.unroll = wrap('unroll', lambda s: [_node_path(s.parent), ['unroll', int(s.parent_index)]])
+    Loop._merge_single_child = wrap('_merge_single_child', lambda s: [_node_path(s), ['merge']])
+    try:
+        loop.flatten_and_balance(depth)
+    finally:
+        for n, f in saved.items():
+            setattr(Loop, n, f)
+    return steps if state['ok'] else None
+
+
 def run_flat(case, build_loop, windows):
     from qupulse.program.loop import make_compatible
     from qupulse.utils.types import TimeType
@@ -388,7 +424,7 @@ def run_flat(case, build_loop, windows):
     op = case['op']
     try:
         if op[0] == 'flatten':
-            loop.flatten_and_balance(op[1])
+            obs['steps'] = _flatten_logged(loop, op[1])
         else:
             f = F(op[3])
             make_compatible(loop, op[1], op[2], TimeType.from_fraction(f.numerator, f.denominator))
